@@ -14,7 +14,11 @@ FRAGS = [b"let", b"x", b" ", b"\n", b"\r\n", b"\r", b"\t", b"=", b"==", b"!=", b
          b"/*", b"(", b")", b"{", b"}", b"[", b"]", b",", b";", b":", b".", b"\"", b"'", b"`", b"\\", b"\\x4", b"\\u00",
          b"\\u{1F", b"\\\n", b"\\`", b"${", b"0", b"1", b"9", b"0x", b"0xF", b"0b1", b"0o7", b"1.5", b"1e", b"1e+",
          b"e", b"E", b"_a", b"$", b"function", b"return", b"if", b"else", b"while", b"for", b"true", b"false",
-         b"null", b"iff", b"\x00", b"\xc3\xa9", b"\xff", b"\xe2\x80\xa8", b"#", b"@", b"~", b"^", b"?"]
+         b"null", b"iff", b"\x00", b"\xc3\xa9", b"\xff", b"\xe2\x80\xa8", b"#", b"@", b"~", b"^", b"?",
+         b"\xef\xbb\xbf", b"#!", b"\\u{0000041}", b"\\u{1F6000}", b"1_000", b"0xFF_FF", b"\xe2\x80\xa9", b"\xf0\x9f\x98\x80",
+         b"'\\u{0000000041}'", b"\"a\\\nb\"", b"`a\nb`", b"08", b"017"]
+# lexemes whose handling depends on WHERE they are: each is also put at the very start of an input
+STARTERS = [b"\xef\xbb\xbf", b"#!", b"\xef\xbb\xbflet x", b"#!/usr/bin/env xjs\n", b"\xfe\xff", b"\n", b"\r\n", b"// c"]
 
 
 def random_inputs(ctx, count, maxfrag):
@@ -23,6 +27,8 @@ def random_inputs(ctx, count, maxfrag):
     for i in range(count):
         n = r.randint(1, maxfrag)
         s = b"".join(r.choice(FRAGS) for _ in range(n))
+        if i % 8 == 0:
+            s = STARTERS[(i // 8) % len(STARTERS)] + s
         out.append(dict(id="rnd%d" % i, src=list(s), extra=EXTRA))
     return out
 
